@@ -408,6 +408,24 @@ def _run_tape_wrapper(tape, stack, cache, additional_flags={}):
 F.run_tape = _run_tape_wrapper
 
 
+class Leaks:
+    """what one run leaves behind in the module-level registries: plugins and contracts are passed PER CALL by the harness
+    (cfg.plugins / cfg.contract_objs), so functions._plugins / functions._contracts must be the same before and after every run"""
+    events = []
+
+    @staticmethod
+    def snap():
+        return ({k: list(v) for k, v in F._plugins.items()}, dict(F._contracts), dict(F._contract_interfaces))
+
+    @staticmethod
+    def check(before, what):
+        after = Leaks.snap()
+        if after != before and len(Leaks.events) < 3:
+            Leaks.events.append('after %s the module registries differ: plugins %r -> %r, contracts %d -> %d, interfaces %d -> %d' % (
+                what, {k: len(v) for k, v in before[0].items()}, {k: len(v) for k, v in after[0].items()},
+                len(before[1]), len(after[1]), len(before[2]), len(after[2])))
+
+
 def impl_run_script(script, cache_vals, cfg):
     """run_script on the implementation; returns the canonical outcome line.  A watchdog timeout is confirmed by a second
     run with four times the budget before it is reported (a spurious timeout was once seen in a heavily loaded thorough run)"""
@@ -427,6 +445,7 @@ def _impl_run_script(script, cache_vals, cfg, seconds):
     _Capture.log = log
     _Capture.recursion = False
     out = None
+    _before = Leaks.snap()
     with GlobalFlags(cfg), (Watch(seconds) if seconds else Watch()):
         try:
             F.run_script(script, cache_vals, cfg.contract_objs(log), cfg.flags, cfg.plugins(log),
@@ -438,6 +457,9 @@ def _impl_run_script(script, cache_vals, cfg, seconds):
             raise
         except BaseException as e:
             out = 'raised:' + exn_name(e)
+    if (cfg.sigext or cfg.ctplugins or cfg.contracts) and not Watch.fired:
+        Leaks.check(_before, 'run_script(%s, cache %s, %d per-call plugin scope(s), %d per-call contract(s))' % (
+            hx(script)[:200], cache_str(cache_vals, False)[:200], len(cfg.plugins(Log())), len(cfg.contracts)))
     if Watch.fired or out is None:
         return 'timeout'
     if _Capture.recursion and out != 'recursion':
@@ -467,9 +489,13 @@ def _impl_run_auth(scripts, cache_vals, cfg, seconds, share=False):
     _Capture.log = log
     _Capture.recursion = False
     v = None
+    _before = Leaks.snap()
     with GlobalFlags(cfg), (Watch(seconds) if seconds else Watch()):
         v = F.run_auth_scripts(list(scripts), cache_vals, cfg.contract_objs(log), cfg.plugins(log),
                                cfg.max_items, cfg.max_item_size, cfg.limit)
+    if (cfg.sigext or cfg.ctplugins or cfg.contracts) and not Watch.fired:
+        Leaks.check(_before, 'run_auth_scripts([%s], %d per-call plugin scope(s), %d per-call contract(s))' % (
+            ', '.join(hx(x)[:80] for x in scripts), len(cfg.plugins(Log())), len(cfg.contracts)))
     if Watch.fired or v is None:
         return 'timeout'
     if _Capture.recursion:
